@@ -120,7 +120,7 @@ pub struct ScriptBus {
     pub alphabet: Vec<Reply>,
     /// choice per reply position; extended with `pick(depth)` when the controller asks beyond its end
     pub script: Vec<u16>,
-    pub pick: Box<dyn FnMut(usize) -> u16>,
+    pub pick: Box<dyn FnMut(usize, &'static str) -> u16>,
     /// after this many messages the bus only errors (bounds polling loops and runaway controllers)
     pub max_messages: usize,
     pub forced_errors: usize,
@@ -140,7 +140,7 @@ impl ScriptBus {
         ScriptBus {
             alphabet,
             script,
-            pick: Box::new(|_| 0),
+            pick: Box::new(|_, _| 0),
             max_messages,
             forced_errors: 0,
             log: vec![],
@@ -151,12 +151,6 @@ impl ScriptBus {
             divergence: None,
             stop_at_divergence: false,
         }
-    }
-
-    pub fn with_model(mut self, mut model: RefCtl) -> ScriptBus {
-        self.expect = Some(model.start());
-        self.model = Some(model);
-        self
     }
 }
 
@@ -182,7 +176,8 @@ impl SignBus for ScriptBus {
             (Reply::BusError, u16::MAX)
         } else {
             if depth >= self.script.len() {
-                let c = (self.pick)(depth);
+                let pos = self.model.as_ref().map(|m| m.pos_name()).unwrap_or("");
+                let c = (self.pick)(depth, pos);
                 self.script.push(c);
             }
             let c = self.script[depth];
@@ -216,59 +211,98 @@ pub struct Conversation {
     /// lockstep verdict: first divergence between the real controller and the reference machine
     pub divergence: Option<(usize, String)>,
     pub expected_outcome: Option<Outcome>,
+    /// what the same `Sign` object did before this call ("operation -> result"), oldest first
+    pub prior_calls: Vec<String>,
 }
 
 impl Conversation {
     pub fn show(&self) -> String {
+        let prior = if self.prior_calls.is_empty() { String::new() } else { format!("(same Sign object earlier: {}) ", self.prior_calls.join("; ")) };
         let mut s: Vec<String> = self.log.iter().map(|(m, r)| format!("{}=>{}", m.show(), r.show())).collect();
         if s.len() > 30 {
             let n = s.len();
             s.truncate(30);
             s.push(format!("(+{} more)", n - 30));
         }
-        s.join("  ")
+        format!("{}{}", prior, s.join("  "))
     }
 }
 
-/// Runs `op` on a real `Sign` talking to a `ScriptBus`; the reference machine runs inside the bus.
-pub fn converse(op: &Op, own: u16, foreign: u16, ty: usize, pages: &[Page<'static>], script: Vec<u16>, max_messages: usize, pick: Box<dyn FnMut(usize) -> u16>, stop_at_divergence: bool) -> Conversation {
-    let images: Vec<Vec<u8>> = pages.iter().map(|p| p.as_bytes().to_vec()).collect();
-    let block = TYPES[ty].ty.to_bytes().to_vec();
-    let model = RefCtl::new(op.clone(), own, &block, &images);
-    let mut sb = ScriptBus::new(alphabet(own, foreign), script, max_messages).with_model(model);
-    sb.pick = pick;
-    sb.stop_at_divergence = stop_at_divergence;
-    let bus = Rc::new(RefCell::new(sb));
-    let sign = mk_sign(bus.clone(), own, ty);
-    let out = run_op(&sign, op, pages);
-    drop(sign);
-    let mut b = bus.borrow_mut();
-    let mut divergence = b.divergence.take();
-    let mut expected_outcome = None;
-    if divergence.is_none() {
-        match &b.expect {
-            Some(Step::Done(o)) => {
-                expected_outcome = Some(o.clone());
-                match out.outcome() {
-                    Some(got) if got == *o => {}
-                    Some(got) => divergence = Some((b.log.len(), format!("finished with {:?} where the protocol prescribes {:?}", got, o))),
-                    None => divergence = Some((b.log.len(), format!("panicked: {}", out.show()))),
+/// One real `Sign` object on one scripted bus, used for several calls in a row. The controller is specified call by
+/// call (nothing an earlier call saw may stand in for a reply in a later one), so every call gets a fresh reference
+/// machine while the `Sign` — and whatever it might remember — stays the same.
+pub struct Session {
+    pub own: u16,
+    pub foreign: u16,
+    pub ty: usize,
+    bus: Rc<RefCell<ScriptBus>>,
+    sign: Sign,
+    pub history: Vec<String>,
+}
+
+impl Session {
+    pub fn new(own: u16, foreign: u16, ty: usize) -> Session {
+        let bus = Rc::new(RefCell::new(ScriptBus::new(alphabet(own, foreign), vec![], 0)));
+        let sign = mk_sign(bus.clone(), own, ty);
+        Session { own, foreign, ty, bus, sign, history: vec![] }
+    }
+
+    /// `pick(depth, position)` chooses the reply symbol beyond the end of `script`.
+    pub fn call(&mut self, op: &Op, pages: &[Page<'static>], script: Vec<u16>, max_messages: usize, pick: Box<dyn FnMut(usize, &'static str) -> u16>, stop_at_divergence: bool) -> Conversation {
+        let images: Vec<Vec<u8>> = pages.iter().map(|p| p.as_bytes().to_vec()).collect();
+        let block = TYPES[self.ty].ty.to_bytes().to_vec();
+        let mut model = RefCtl::new(op.clone(), self.own, &block, &images);
+        {
+            let mut b = self.bus.borrow_mut();
+            b.script = script;
+            b.max_messages = max_messages;
+            b.forced_errors = 0;
+            b.log.clear();
+            b.offered.clear();
+            b.positions.clear();
+            b.divergence = None;
+            b.expect = Some(model.start());
+            b.model = Some(model);
+            b.pick = pick;
+            b.stop_at_divergence = stop_at_divergence;
+        }
+        let prior_calls = self.history.clone();
+        let out = run_op(&self.sign, op, pages);
+        self.history.push(format!("{} -> {}", op.name(), out.show()));
+        let mut b = self.bus.borrow_mut();
+        let mut divergence = b.divergence.take();
+        let mut expected_outcome = None;
+        if divergence.is_none() {
+            match &b.expect {
+                Some(Step::Done(o)) => {
+                    expected_outcome = Some(o.clone());
+                    match out.outcome() {
+                        Some(got) if got == *o => {}
+                        Some(got) => divergence = Some((b.log.len(), format!("finished with {:?} where the protocol prescribes {:?}", got, o))),
+                        None => divergence = Some((b.log.len(), format!("panicked: {}", out.show()))),
+                    }
                 }
+                Some(Step::Emit(e)) => divergence = Some((b.log.len(), format!("stopped with {} while the protocol prescribes sending {}", out.show(), e.show()))),
+                None => {}
             }
-            Some(Step::Emit(e)) => divergence = Some((b.log.len(), format!("stopped with {} while the protocol prescribes sending {}", out.show(), e.show()))),
-            None => {}
+        }
+        Conversation {
+            op: op.clone(),
+            own: self.own,
+            log: std::mem::take(&mut b.log),
+            offered: std::mem::take(&mut b.offered),
+            positions: std::mem::take(&mut b.positions),
+            out,
+            script: std::mem::take(&mut b.script),
+            forced_errors: b.forced_errors,
+            divergence,
+            expected_outcome,
+            prior_calls,
         }
     }
-    Conversation {
-        op: op.clone(),
-        own,
-        log: std::mem::take(&mut b.log),
-        offered: std::mem::take(&mut b.offered),
-        positions: std::mem::take(&mut b.positions),
-        out,
-        script: std::mem::take(&mut b.script),
-        forced_errors: b.forced_errors,
-        divergence,
-        expected_outcome,
-    }
+}
+
+/// Runs `op` on a fresh real `Sign` talking to a `ScriptBus`; the reference machine runs inside the bus.
+pub fn converse(op: &Op, own: u16, foreign: u16, ty: usize, pages: &[Page<'static>], script: Vec<u16>, max_messages: usize, mut pick: Box<dyn FnMut(usize) -> u16>, stop_at_divergence: bool) -> Conversation {
+    Session::new(own, foreign, ty).call(op, pages, script, max_messages, Box::new(move |d, _| pick(d)), stop_at_divergence)
 }
